@@ -8,7 +8,7 @@ CONSTANTS
   MaxLines = 3
   Bodies <- BodiesCand
   CtxMax = 2
-  Terms = {"crlf", "nul", "lf"}
+  Terms = {"crlf", "nul"}
   Strats = {"reader", "slice"}
   Paths = {"slow", "fast", "cand"}
   Caps = {3}
